@@ -16,6 +16,7 @@ import (
 	"context"
 	"errors"
 	"fmt"
+	"os"
 	"strings"
 	"sync"
 	"testing"
@@ -55,6 +56,7 @@ type verifC12Single struct {
 	ctx    context.Context
 	wg     sync.WaitGroup
 	serial int
+	live   []string // proposals the running incarnation accepted
 }
 
 func (d *verifC12Single) node() *verifC12Node { return d.c.nodes[0] }
@@ -98,6 +100,7 @@ func (d *verifC12Single) burst(slot, n int) []string {
 			continue
 		}
 		ids = append(ids, id)
+		d.live = append(d.live, id)
 		d.c.inflight.Add(1)
 		d.c.pending.Store(id, 1)
 		d.wg.Add(1)
@@ -134,16 +137,21 @@ func (d *verifC12Single) waitResolved(ids []string) error {
 	return errVerifC12SingleStuck
 }
 
-// quiesce waits (bounded) until nothing is in flight and every slot has
-// applied what it committed.
+// quiesce waits (bounded) until every proposal the running incarnation
+// accepted is resolved and every slot has applied what it committed. (Futures
+// of a stopped incarnation that were still queued at its Close never resolve;
+// that is the liveness matter the spec lists, not waited for.)
 func (d *verifC12Single) quiesce() error {
+	if err := d.waitResolved(d.live); err != nil {
+		return err
+	}
 	deadline := time.Now().Add(10 * time.Second)
 	for time.Now().Before(deadline) {
 		rt := d.node().runtime()
 		if rt == nil {
 			return errVerifC12SingleStuck
 		}
-		ok := d.c.inflight.Load() == 0
+		ok := true
 		for s := 1; ok && s <= d.c.cfg.Slots; s++ {
 			st, err := rt.Status(multiraft.SlotID(s))
 			ok = err == nil && st.Role == multiraft.RoleLeader && st.CommitIndex == st.AppliedIndex
@@ -195,6 +203,7 @@ func TestVerifC12SingleReplica(t *testing.T) {
 		ctx, cancel := context.WithCancel(context.Background())
 		d := &verifC12Single{c: c, ctx: ctx}
 		stuck := ""
+		dev := os.Getenv("VERIF_C12_DEV") != ""
 		restarts, crashes, busyStops := 0, 0, 0
 		var crashWhat []string
 		func() {
@@ -204,6 +213,7 @@ func TestVerifC12SingleReplica(t *testing.T) {
 				cancel()
 				d.wg.Wait()
 			}()
+			bootStart := time.Now()
 			if err := d.node().start(); err != nil {
 				stuck = "start: " + err.Error()
 				return
@@ -211,6 +221,9 @@ func TestVerifC12SingleReplica(t *testing.T) {
 			if d.waitLeader() != nil {
 				stuck = "no leader after bootstrap"
 				return
+			}
+			if dev {
+				fmt.Printf("DEVTIME boot %v\n", time.Since(bootStart).Round(100*time.Microsecond))
 			}
 			comeBack := func() bool {
 				if err := d.node().start(); err != nil {
@@ -222,25 +235,20 @@ func TestVerifC12SingleReplica(t *testing.T) {
 					return false
 				}
 				restarts++
+				d.live = nil
 				if d.waitLeader() != nil {
 					stuck = "no leader after restart"
 					return false
 				}
 				return true
 			}
-			for _, op := range ops {
+			runOp := func(op verifC12SingleOp) bool {
 				switch op.Kind {
 				case "burst":
 					ids := d.burst(op.Slot, op.N)
 					if op.Wait && d.waitResolved(ids) != nil {
 						stuck = "proposals unresolved"
-						if r := d.node().runtime(); r != nil {
-							for sl := 1; sl <= cfg.Slots; sl++ {
-								st, err := r.Status(multiraft.SlotID(sl))
-								stuck += fmt.Sprintf(" [s%d role=%d term=%d commit=%d applied=%d err=%v]", sl, st.Role, st.Term, st.CommitIndex, st.AppliedIndex, err)
-							}
-						}
-						return
+						return false
 					}
 				case "restart":
 					if c.inflight.Load() > 0 {
@@ -248,23 +256,21 @@ func TestVerifC12SingleReplica(t *testing.T) {
 					}
 					if err := d.node().stop(); err != nil {
 						stuck = "close: " + err.Error()
-						return
+						return false
 					}
-					if !comeBack() {
-						return
-					}
+					return comeBack()
 				case "crash":
 					fault := verifC12NewFault(op.Class, 0, op.Nth, op.Before, 0, 1)
 					d.node().fault.Store(fault)
 					d.burst(op.Slot, op.N)
 					select {
 					case <-fault.fired:
-					case <-time.After(150 * time.Millisecond):
+					case <-time.After(100 * time.Millisecond):
 					}
 					fired := fault.cancel()
 					d.node().fault.Store(nil)
 					if !fired {
-						continue
+						return true
 					}
 					crashes++
 					crashWhat = append(crashWhat, fault.what)
@@ -273,11 +279,9 @@ func TestVerifC12SingleReplica(t *testing.T) {
 					}
 					if err := d.node().reap(); err != nil {
 						stuck = "close: " + err.Error()
-						return
+						return false
 					}
-					if !comeBack() {
-						return
-					}
+					return comeBack()
 				case "compact":
 					if r := d.node().runtime(); r != nil {
 						cctx, ccancel := context.WithTimeout(ctx, 5*time.Second)
@@ -285,10 +289,25 @@ func TestVerifC12SingleReplica(t *testing.T) {
 						ccancel()
 					}
 				}
+				return true
 			}
+			for _, op := range ops {
+				opStart := time.Now()
+				ok := runOp(op)
+				if dev {
+					fmt.Printf("DEVTIME %s %v\n", op.Kind, time.Since(opStart).Round(100*time.Microsecond))
+				}
+				if !ok {
+					return
+				}
+			}
+			qStart := time.Now()
 			if d.quiesce() == nil {
 				c.hist.SettleSeq = c.hist.now()
 				c.hist.Settled = true
+			}
+			if dev {
+				fmt.Printf("DEVTIME quiesce %v\n", time.Since(qStart).Round(100*time.Microsecond))
 			}
 			if err := d.node().stop(); err != nil {
 				stuck = "close: " + err.Error()
@@ -302,12 +321,12 @@ func TestVerifC12SingleReplica(t *testing.T) {
 			desc.WriteString(op.String() + " ")
 		}
 		if len(facts.Violations) > 0 {
-			path := kit.SaveReplay("C12", t.Name(), "json", c.hist.marshal())
-			rt.Fatalf("C12 violated (history saved to %s)\ncase: %s\n  %s", path, desc.String(), strings.Join(facts.Violations, "\n  "))
+			// rapid shrinks and re-runs the case; its fail file is the replay artefact
+			rt.Fatalf("C12 violated\ncase: %s\n  %s", desc.String(), strings.Join(facts.Violations, "\n  "))
 		}
 		if stuck != "" {
-			fmt.Printf("DEVSTUCK %s :: %s\n", stuck, desc.String())
-			if r := d.node().runtime(); r != nil {
+			if dev {
+				fmt.Printf("DEVSTUCK %s :: %s\n", stuck, desc.String())
 			}
 			// a bounded wait ran out: not a verdict
 			rt.Skip("not judged: " + stuck)
